@@ -223,6 +223,12 @@ func (t *Transaction) rowsFromTransactionCacheAndDatabase(table string, where []
 	// prefer rows from transaction cache while copying into cache
 	// rows that are in the db.
 	for rowUUID, row := range rows {
+		if _, deleted := t.DeletedRows[rowUUID]; deleted {
+			// deleted by this transaction, do not bring it back to the
+			// transaction cache
+			delete(rows, rowUUID)
+			continue
+		}
 		if txnRow, found := txnRows[rowUUID]; found {
 			rows[rowUUID] = txnRow
 			// delete txnRows so that only inserted rows remain in txnRows
